@@ -753,6 +753,17 @@ class Engine:
 
     def assign(self, tgt, v, st):
         if isinstance(tgt, ast.Name):
+            # closures see variables, not values (late binding): rebinding a name that a live lambda of this function reads
+            # changes what that lambda computes.  The self-referential form `x = lambda ...: ... x ...` is modelled exactly
+            # (the lambda sees itself); any other rebinding of a captured name is outside the subset.
+            if isinstance(v, VFunc) and isinstance(v.node, ast.Lambda) and v.closure is not None and tgt.id in _free_names(v.node):
+                v = VFunc(v.name, node=v.node, closure=dict(v.closure), bound=v.bound, model=v.model)
+                v.closure[tgt.id] = v
+            else:
+                for ov in st.env.values():
+                    if isinstance(ov, VFunc) and isinstance(ov.node, ast.Lambda) and ov.closure is not None and ov is not v \
+                            and tgt.id in _free_names(ov.node) and tgt.id in ov.closure and ov.closure[tgt.id] is not ov:
+                        raise OutOfReach('rebinding %s, which a live lambda reads' % tgt.id)
             st.env[tgt.id] = v
             return [(st, None)]
         if isinstance(tgt, (ast.Tuple, ast.List)):
@@ -1112,6 +1123,16 @@ class Engine:
                 b.ghost['loop_k:' + text] = kvar
                 out.extend(self.block(n.orelse, b))
         return out
+
+
+def _free_names(lam):
+    """names a lambda reads that are not its own parameters"""
+    params = {a.arg for a in lam.args.args + lam.args.kwonlyargs + lam.args.posonlyargs}
+    if lam.args.vararg:
+        params.add(lam.args.vararg.arg)
+    if lam.args.kwarg:
+        params.add(lam.args.kwarg.arg)
+    return {n.id for n in ast.walk(lam.body) if isinstance(n, ast.Name)} - params
 
 
 def _as_load(node):
